@@ -504,6 +504,9 @@ func (e *Engine) convert(st *State, x Value, from, to types.Type) Value {
 	c := e.C
 	fu, tu := from.Underlying(), to.Underlying()
 	if tw, _, ok := intInfo(to); ok {
+		if nv, isN := x.(NativeV); isN && nv.Tag == "uintptr" && tw == 64 {
+			return nv // uintptr -> C.uintptr_t and the like: still the same address
+		}
 		switch xv := x.(type) {
 		case *smt.Term:
 			_, fs, _ := intInfo(from)
